@@ -1,6 +1,7 @@
 package main
 
 import (
+	"strconv"
 	"bytes"
 	"encoding/json"
 	"fmt"
@@ -193,6 +194,10 @@ func keyFor(fmt string, k int) string {
 		}
 		return string(b)
 	}
+	if manyKeys {
+		// sub.manykeys: thousands of distinct member names (capacities beyond anything preallocated)
+		return "k" + strconv.Itoa(100000+k)
+	}
 	if k == 3 && fmt != "json" {
 		return "\xe9"
 	}
@@ -201,6 +206,7 @@ func keyFor(fmt string, k int) string {
 
 // longKeyLen is set by runKeyCache for the duration of a case (cases run one at a time within a process).
 var longKeyLen int
+var manyKeys bool
 
 var cacheKeys = []string{"", "a", "b", "ab", "abc", "kéy"} // ids 1..: the empty key, two keys of equal length, keys sharing a prefix
 
@@ -217,6 +223,8 @@ func runKeyCache(c *Case, tr *Trace) {
 		longKeyLen = int(kl)
 		defer func() { longKeyLen = 0 }()
 	}
+	manyKeys, _ = c.Sub["manykeys"].(bool)
+	defer func() { manyKeys = false }()
 	var docs [][]int
 	cur := []int{}
 	for _, x := range c.Sub["hist"].([]interface{}) {
@@ -323,7 +331,18 @@ func runKeyCache(c *Case, tr *Trace) {
 		lruInts = append(lruInts, row)
 	}
 	keyTab := [][]int{}
-	for k := range cacheKeys {
+	nkeys := len(cacheKeys)
+	if manyKeys {
+		for _, d := range docs {
+			for _, k := range d {
+				if k > nkeys {
+					nkeys = k
+				}
+			}
+		}
+		lruInts = [][][]int{} // (the diagnostic order of thousands of entries is not recorded)
+	}
+	for k := 0; k < nkeys; k++ {
 		keyTab = append(keyTab, strToInts(keyFor(c.Fmt, k+1)))
 	}
 	tr.Extra = map[string]interface{}{"with": with, "without": without, "errw": errW, "errn": errN, "lru": lruInts, "keytab": keyTab}
